@@ -107,6 +107,44 @@ public:
   }
 };
 
+// Variant whose pointer representation is as wide as a host pointer but NOT the identity (64-bit offsets from the region base):
+// arrays of pointers must still be translated element by element in both directions; only a copy between two cells in sandbox
+// memory may move the representation bytes as they are.
+class vsbx64 : public vsbx
+{
+public:
+  using T_PointerType = uint64_t;
+  using T_LongType = int64_t;
+
+protected:
+  template<typename T>
+  inline void* impl_get_unsandboxed_pointer(T_PointerType p) const
+  {
+    return reinterpret_cast<void*>(region_base[slot] + (static_cast<uintptr_t>(p) % region_size[slot]));
+  }
+  template<typename T>
+  inline T_PointerType impl_get_sandboxed_pointer(const void* p) const
+  {
+    return static_cast<T_PointerType>(reinterpret_cast<uintptr_t>(p) - region_base[slot]);
+  }
+  template<typename T>
+  static inline void* impl_get_unsandboxed_pointer_no_ctx(T_PointerType p, const void* example, vsbx64* (*finder)(const void*))
+  {
+    vsbx64* s = finder(example);
+    return s->template impl_get_unsandboxed_pointer<T>(p);
+  }
+  template<typename T>
+  static inline T_PointerType impl_get_sandboxed_pointer_no_ctx(const void* p, const void* example, vsbx64* (*finder)(const void*))
+  {
+    vsbx64* s = finder(example);
+    return s->template impl_get_sandboxed_pointer<T>(p);
+  }
+  inline T_PointerType impl_malloc_in_sandbox(size_t) { return next_malloc; }
+  inline void impl_free_in_sandbox(T_PointerType) {}
+  template<typename R, typename... A> inline T_PointerType impl_register_callback(void*, void*) { return 0x40; }
+  static inline std::pair<vsbx64*, void*> impl_get_executed_callback_sandbox_and_key() { return { nullptr, nullptr }; }
+};
+
 // Variant that can move buffers in and out of the sandbox without copying (can_grant_deny_access): exercises the native
 // paths of copy_memory_or_grant_access / copy_memory_or_deny_access.
 class vsbx_gd : public vsbx
